@@ -205,7 +205,7 @@ pub fn proof_inputs_to_rln_witness(
 
     let signal: Vec<u8> = serialized[all_read..all_read + signal_len].to_vec();
 
-    let merkle_proof = tree.proof(id_index).expect("proof should exist");
+    let merkle_proof = tree.proof(id_index)?;
     let path_elements = merkle_proof.get_path_elements();
     let identity_path_index = merkle_proof.get_path_index();
 
